@@ -31,8 +31,18 @@ type roundPlan struct {
 	Reuse   string   `json:"reuse,omitempty"`
 	PA      string   `json:"pa,omitempty"` // valset id named by the relayer: "" faithful | "older" | "zero" | "unknown"
 	Dynamic bool     `json:"dyn,omitempty"`
-	Dissent bool     `json:"dis,omitempty"`
+	Dissent bool     `json:"dis,omitempty"` // the validators outside the >= 2/3 majority report the SAME tx with the opposite receipt status
+	// when the dissenting minority hands in its evidence: "" after the majority (same block) |
+	// "first" before the majority (same block) | "earlier-block" one block before the majority.
+	// The minority then contains the relayer whenever the majority can do without its shares.
+	DissentOrder string `json:"do,omitempty"`
 }
+
+const (
+	dissentLast    = "last"
+	dissentFirst   = "first"
+	dissentEarlier = "earlier-block"
+)
 
 const (
 	reuseSameCalldata = "same-calldata" // a tx accepted earlier whose call data also fits this message
@@ -44,8 +54,10 @@ type prepared struct {
 	a     *attempt
 	rc    *ethtypes.Receipt
 	proof *evmtypes.TxExecutedProof
-	alt   *evmtypes.TxExecutedProof
+	alt   *evmtypes.TxExecutedProof // what the dissenting minority reports (nil: nobody dissents)
 	queue string
+
+	altStatus uint64
 }
 
 // usable: the attestation loop visits chains in sorted order and stops at the first message that
@@ -446,7 +458,15 @@ func (w *wd) prepare(ref string, id uint64, p roundPlan, forced *usedTx) *prepar
 		if rc.Status == 0 {
 			st = 1
 		}
-		pr.alt = mkProof(tx, mkReceipt(tx, st, false, common.Address{}), rcOK, w.r)
+		// (a forged success receipt looks like a real one: deploy_contract calls carry compass' ContractDeployed log)
+		pr.alt = mkProof(tx, mkReceipt(tx, st, action == actUser && st == 1, common.BytesToAddress(tx.Hash().Bytes()[:20])), rcOK, w.r)
+		pr.altStatus = st
+		switch p.DissentOrder {
+		case dissentFirst, dissentEarlier:
+			a.Dissent = p.DissentOrder
+		default:
+			a.Dissent = dissentLast
+		}
 	}
 	w.note("round %s class=%s receipt=%s reuse=%s sigs=%d/%d(+%d late) pa=%d matches=%v(prefix %d)", what, a.Class, a.Receipt, a.Reuse, a.NSigsUsed, nEarly, late, paID, a.matches, a.prefix)
 	return pr
@@ -578,35 +598,87 @@ func (w *wd) corruptCtx(ref string, qm consensustypes.QueuedSignedMessageI, spec
 }
 
 // attest: validators holding >= 2/3 of the shares report the same proof; the evidence of all
-// prepared attempts lands in ONE block, at whose end the chain attests.
+// prepared attempts lands in ONE block, at whose end the chain attests. Where the plan says so, the
+// remaining validators report the same transaction with the opposite receipt status - after the
+// majority, before it, or already one block earlier (evidence is kept in the order it comes in).
 func (w *wd) attest(prs []*prepared, p roundPlan) {
-	maj, rest := w.attesters()
-	seq := map[*chain.Account]uint64{}
+	var maj, rest []*chain.Account
+	minorityFirst := false
 	for _, pr := range prs {
+		if pr.alt != nil && pr.a.Dissent != dissentLast {
+			minorityFirst = true
+		}
+	}
+	if minorityFirst {
+		maj, rest = w.attestersSplit(prs[0].a.assignee)
+	} else {
+		maj, rest = w.attesters()
+	}
+	type report struct {
+		v     *chain.Account
+		pr    *prepared
+		proof *evmtypes.TxExecutedProof
+		alt   bool
+	}
+	var early, main []report // delivered one block before / in the attestation block, in this order
+	for _, pr := range prs {
+		var mj, mn []report
 		for _, v := range maj {
-			ev, err := world.MsgEvidence(v, pr.queue, pr.a.MsgID, pr.proof)
-			if err != nil {
-				w.fail("evidence: %v", err)
-				return
-			}
-			if err := w.c.QueueTx(v, seq[v], ev); err != nil {
-				w.fail("evidence tx: %v", err)
-				return
-			}
-			seq[v]++
+			mj = append(mj, report{v, pr, pr.proof, false})
 		}
 		if pr.alt != nil {
 			for _, v := range rest {
-				if ev, err := world.MsgEvidence(v, pr.queue, pr.a.MsgID, pr.alt); err == nil {
-					if w.c.QueueTx(v, seq[v], ev) == nil {
-						seq[v]++
-						w.rec.Count("dissenting_evidence", 1)
-					}
-				}
+				mn = append(mn, report{v, pr, pr.alt, true})
 			}
+			if len(mn) == 0 {
+				// everybody is needed for the 2/3: nobody left to dissent
+				pr.a.Dissent = ""
+				w.rec.Count("rounds_dissent_unavailable", 1)
+			}
+		}
+		pr.a.minority = len(mn)
+		switch {
+		case len(mn) > 0 && pr.a.Dissent == dissentEarlier:
+			early = append(early, mn...)
+			main = append(main, mj...)
+		case len(mn) > 0 && pr.a.Dissent == dissentFirst:
+			main = append(append(main, mn...), mj...)
+		default:
+			main = append(append(main, mj...), mn...)
 		}
 		pr.a.evidenceAt = w.c.Height + 1
 		w.live = append(w.live, pr.a)
+	}
+	deliver := func(rs []report) bool {
+		seq := map[*chain.Account]uint64{}
+		for _, r := range rs {
+			ev, err := world.MsgEvidence(r.v, r.pr.queue, r.pr.a.MsgID, r.proof)
+			if err == nil {
+				err = w.c.QueueTx(r.v, seq[r.v], ev)
+			}
+			if err != nil {
+				w.fail("evidence: %v", err)
+				return false
+			}
+			seq[r.v]++
+			if r.alt {
+				w.rec.Count("dissenting_evidence", 1)
+				w.rec.Count("dissenting_evidence/"+r.pr.a.Dissent, 1)
+			}
+		}
+		return true
+	}
+	if len(early) > 0 {
+		if !deliver(early) {
+			return
+		}
+		w.block(fmt.Sprintf("dissenting evidence by %d/%d validators", len(rest), len(w.vals)))
+		if w.failed {
+			return
+		}
+	}
+	if !deliver(main) {
+		return
 	}
 	w.block(fmt.Sprintf("evidence by %d/%d validators", len(maj), len(w.vals)))
 	if w.failed {
